@@ -15,6 +15,10 @@ def obligations(tier):
         o += tc.batch_obligations("load_errors", fam, "h_load.c", {"P_ERR": 1}, variant=v, truncations=True, weight_cap=120, max_cases=12, funcs=F, ptrcheck=False,
                                   desc="cbor_load on the skeleton and on every truncation, result struct pre-filled with nondeterministic values: NULL, nothing allocated, "
                                        "(code, position) in the reference decoder's allowed set, read consistent")
+    import skeleton as sk
+    o += tc.batch_obligations("load_errors_huge_declared_sizes", sk.huge_family(), "h_load.c", {"P_ERR": 1, "P_RECORD": 1}, variant="dbg", truncations=True, weight_cap=60, max_cases=4, funcs=F, ptrcheck=False,
+                              desc="heads declaring 2^32 .. 2^64-1 elements or bytes, every truncation, allocator refusing requests above 4 KiB: MEMERROR just past the head whose backing store is refused, "
+                                   "NOTENOUGHDATA for the (viable) prefixes and for oversize strings; nothing allocated")
     return o
 
 
